@@ -134,6 +134,10 @@ def to_value(v, groups=None):
         return _fault_value(v)
     if me.is_rest_value(v):
         return Rest(v['rest'])
+    if me.is_row_value(v):
+        # the value of a key set: one list (or tuple) per event
+        row = [to_value(x, groups) for x in v['row']]
+        return tuple(row) if v.get('as') == 'tuple' else row
     if isinstance(v, str) and v == 'groupobj':
         return groups['obj']
     if isinstance(v, str) and v == 'inf':
@@ -312,12 +316,17 @@ def leftover_state(e, spec):
             and not e.get('is_playing', False)}
 
 
+_columns = {}       # column objects the caller built itself (repairable)
+
+
 def to_valpattern(vs):
     from sc3.seq.patterns.listpatterns import Pseq, Pser
     from sc3.seq.patterns.valuepatterns import Pseries
     if not isinstance(vs, (list, tuple)):
         return to_value(vs)
     kind = vs[0]
+    if kind == 'use-column':
+        return _columns['column']
     if kind == 'seq':
         return Pseq([to_valpattern(x) for x in vs[1]], vs[2], vs[3])
     if kind == 'ser':
@@ -354,13 +363,15 @@ def to_pattern(p, shared=None, built=None):
         return Pseq([rec(c) for c in p[1]])
     if kind == 'pn':
         return Pn(rec(p[2]), p[1])
+    # (a key set of the spec is a tuple key of the real mapping)
+    real = lambda m: {(tuple(me.keyset_names(k)) if me.is_keyset(k) else k):
+                      to_valpattern(v) for k, v in m.items()}
     if kind == 'pbind':
-        return Pbind({k: to_valpattern(v) for k, v in p[1].items()})
+        return Pbind(real(p[1]))
     if kind == 'pmono':
-        return Pmono(p[1], {k: to_valpattern(v) for k, v in p[2].items()})
+        return Pmono(p[1], real(p[2]))
     if kind == 'pmono_artic':
-        return Pmono(p[1], {k: to_valpattern(v) for k, v in p[2].items()},
-                     articulate=True)
+        return Pmono(p[1], real(p[2]), articulate=True)
     if kind == 'ppar':
         return Ppar(*[rec(c) for c in p[1]])
     if kind == 'pchain':
@@ -400,12 +411,58 @@ class Capture:
         self.extra = {}
 
 
-def collect(cap):
-    """main.process() -> decoded bundles; always resets afterwards."""
+def _bounded(main, limit, cap):
+    """Context for main.process(): the NRT scheduler gives up when its next
+    wake-up lies beyond `limit` seconds (a stream that never ends - e.g. a
+    Pbind that has lost the column that ends it - would otherwise run until
+    the shard is killed).  Observation only: what was scheduled beyond the
+    limit is dropped and the case is marked (cap.extra['runaway'])."""
+    import contextlib
+
+    @contextlib.contextmanager
+    def ctx():
+        q = patched = None
+        try:
+            sched = main._clock_scheduler
+            q = sched.queue
+            plain = q.empty
+
+            def empty():
+                if plain():
+                    return True
+                try:
+                    t = q.peek()[0]
+                except KeyError:
+                    return plain()
+                if t > limit:
+                    cap.extra['runaway'] = t
+                    sched.reset()
+                    return True
+                return False
+            q.empty = patched = empty
+        except Exception:       # noqa: another scheduler: unbounded as before
+            patched = None
+        try:
+            yield
+        finally:
+            if patched is not None:
+                try:
+                    del q.empty
+                except Exception:       # noqa
+                    pass
+    return ctx()
+
+
+def collect(cap, limit=None):
+    """main.process() -> decoded bundles; always resets afterwards.  limit:
+    latest time (seconds) a wake-up of the case can lie at."""
     from sc3.base.main import main
+    import contextlib
     try:
         try:
-            sc = main.process()
+            with (_bounded(main, limit, cap) if limit is not None
+                  else contextlib.nullcontext()):
+                sc = main.process()
         except Exception as e:      # noqa: a verdict, not a harness failure
             cap.raised = cap.raised or e
             cap.extra['raised_in'] = 'main.process'
@@ -554,10 +611,11 @@ def run_timeline_case(case):
     if case['proto'] == 'event-rest':
         from sc3.seq.event import Rest
         proto = event({'c14proto': 1, 'c14quiet': Rest(0.5)})
+    limit = _case_limit(case)
     if case.get('plays'):
         try:
             _run_plays(case, pat, proto)
-            collect(cap)
+            collect(cap, limit)
         finally:
             s.latency = old
         return cap, 0.0
@@ -581,10 +639,28 @@ def run_timeline_case(case):
                 pat.play(clock_of(), 0, proto=proto)
             Routine(body).play(SystemClock if case['where'] == 'routine-system'
                                else TempoClock(1))
-        collect(cap)
+        collect(cap, limit)
     finally:
         s.latency = old
     return cap, start
+
+
+def _case_limit(case):
+    """Twice the time the model gives the case, plus a minute."""
+    try:
+        if case.get('form') in ('control', 'mono-control'):
+            tl = me.timeline(case['pattern'])
+            last = max([case['at']] + [a['at'] for a in case['controls']])
+            return 2 * (last + tl.total) + 60
+        if case.get('form') == 'pattern-fault':
+            return 2 * max(pl['at'] + me.timeline(
+                case['shared'][pl['use']]).total for pl in case['plays']) + 60
+        tl = me.timeline(me.expand(case['pattern'], case.get('shared') or {}))
+        last = max([case.get('start', 0)] + [
+            max(pl['at'], pl.get('stop') or 0) for pl in case.get('plays', [])])
+        return 2 * (last + tl.total) + 60
+    except Exception:       # noqa
+        return 600.0
 
 
 def _run_plays(case, pat, proto):
@@ -594,12 +670,15 @@ def _run_plays(case, pat, proto):
     from sc3.base.stream import Routine
     from sc3.base.clock import SystemClock, TempoClock
     actions = []
+    # (one player restarted: its stop comes before the restart that happens
+    # at the same time; separate players: the new one starts first)
+    same = case.get('restart', 'new-player') != 'new-player'
     for i, pl in enumerate(case['plays']):
-        actions.append((pl['at'], 0, 'play', i))
+        actions.append((pl['at'], 1 if same else 0, 'play', i))
         if pl.get('stop') is not None:
-            actions.append((pl['stop'], 1, 'stop', i))
+            actions.append((pl['stop'], 0 if same else 1, 'stop', i))
     actions.sort()
-    players = {}
+    players, clocks = {}, {}
 
     def body():
         now = 0.0
@@ -611,7 +690,22 @@ def _run_plays(case, pat, proto):
                 c = case['clock']
                 clock = None if c == 'default' else SystemClock \
                     if c == 'system' else TempoClock(1)
-                players[i] = pat.play(clock, 0, proto=proto)
+                how = case.get('restart', 'new-player')
+                if i == 0 or how == 'new-player':
+                    clocks[i] = clock
+                    players[i] = pat.play(clock, 0, proto=proto)
+                    continue
+                # the SAME player is started again (it was stopped before),
+                # on the clock it played on (another clock object is another
+                # matter: the wake-up that was pending on the old clock when
+                # the player was stopped is the clocks' business)
+                players[i] = pl = players[0]
+                clock = clocks.setdefault(0, clock)
+                if how == 'reset-play':
+                    pl.reset()
+                    pl.play(clock, 0)
+                else:
+                    pl.play(clock, 0, reset=True)
             else:
                 players[i].stop()
     Routine(body).play(SystemClock)
@@ -638,7 +732,25 @@ def run_control_case(case):
     s = Server.default
     old = s.latency
     s.latency = case['latency']
-    pat = to_pattern(case['pattern'], case.get('shared'))
+    f = case.get('fault')
+    column = good = None
+    if f:
+        # the failing element: cell `row` of a plain Pseq column of the mono
+        # leaf, repaired in place (the list of the Pseq object) before call
+        # number `repair_before`
+        import copy
+        from sc3.seq.patterns.listpatterns import Pseq
+        spec = copy.deepcopy(case['pattern'])
+        leaf = _fault_leaf(spec, f)
+        cells = leaf[2][f['key']][1]
+        good = to_value(cells[f['row']])
+        column = Pseq([to_value(v) for v in cells])
+        column.lst[f['row']] = to_value(f['bad'])
+        leaf[2][f['key']] = ['use-column']
+        _columns['column'] = column
+        pat = to_pattern(spec, case.get('shared'))
+    else:
+        pat = to_pattern(case['pattern'], case.get('shared'))
     proto = _proto_for(case)
     errors = []
 
@@ -649,10 +761,12 @@ def run_control_case(case):
             now = case['at']
         clock = _clock_for(case['clock'])
         pl = pat.play(clock, 0, proto=proto)
-        for a in case['controls']:
+        for j, a in enumerate(case['controls']):
             yield a['at'] - now
             now = a['at']
             do = a['do']
+            if f and case.get('repair_before') == j:
+                column.lst[f['row']] = good
             try:
                 # (quant 0 as in every case: the default grid of a tempo
                 # clock is kept out)
@@ -672,13 +786,34 @@ def run_control_case(case):
                 return
     try:
         Routine(body).play(SystemClock)
-        collect(cap)
+        collect(cap, _case_limit(case))
         if errors and cap.raised is None:
             cap.raised = errors[0][1]
             cap.extra['raised_in'] = errors[0][0]
     finally:
         s.latency = old
     return cap
+
+
+def _holds_tag(p, tag):
+    if p[0] in ('pbind',):
+        return tag in (me.values(p[1].get('tag')) or [])
+    if p[0] in ('pmono', 'pmono_artic'):
+        return tag in (me.values(p[2].get('tag')) or [])
+    if p[0] in ('pseq', 'ppar'):
+        return any(_holds_tag(c, tag) for c in p[1])
+    return _holds_tag(p[2], tag)
+
+
+def _fault_leaf(p, f):
+    """The mono leaf of pattern spec `p` that holds the failing cell."""
+    while p[0] not in ('pmono', 'pmono_artic') or f['key'] not in p[2] \
+            or f['tag'] not in (me.values(p[2]['tag']) or []):
+        if p[0] in ('pseq', 'ppar'):
+            p = next(c for c in p[1] if _holds_tag(c, f['tag']))
+        else:
+            p = p[2]
+    return p
 
 
 def run_pattern_fault_case(case):
@@ -713,7 +848,7 @@ def run_pattern_fault_case(case):
             pats[pl['use']].play(clock, 0, proto=proto)
     try:
         Routine(body).play(SystemClock)
-        collect(cap)
+        collect(cap, _case_limit(case))
     finally:
         s.latency = old
     return cap
@@ -865,9 +1000,15 @@ def expect_timeline(case, start, info, groups):
 
 def expect_control(case, info, groups):
     """Expectation of a player-control case, or None (an action at a
-    wake-up: not decided)."""
+    wake-up: not decided).  Mono lines (form mono-control): every run of the
+    stream has voices of its own - (run, voice) - each created by one /s_new,
+    set by its line's later events and released exactly once
+    (me.controlled_voices).  A failing element (case['dies']): its own
+    traffic, and whatever carries a tag of the elements after it until the
+    player is started again, is not decided."""
     tl = me.timeline(case['pattern'])
-    c = me.controlled(tl, case['at'], case['controls'])
+    dies = case.get('dies')
+    c = me.controlled(tl, case['at'], case['controls'], dies=dies)
     if c is None:
         return None
     ex = Expect()
@@ -876,7 +1017,9 @@ def expect_control(case, info, groups):
     ex.control = c
     ex.muted = 0
     L = case['latency']
-    for t, e, muted in c.plays:
+    marks = c.marks if len(c.marks) == len(c.plays) else \
+        [(0, None)] * len(c.plays)
+    for (t, e, muted), (run, _idx) in zip(c.plays, marks):
         if e.rest:
             ex.rests += 1
             if 'tag' in e.keys:
@@ -886,8 +1029,37 @@ def expect_control(case, info, groups):
             ex.muted += 1
             ex.muted_tags.add(e.keys['tag'])
             continue
-        ex.notes.append(expect_note(e.keys, t, L, info, groups, e.kind,
-                                    e.mono))
+        mono = ((run, e.mono[0]), e.mono[1]) if e.mono else None
+        if e.kind == 'mono_set':
+            ex.sets.append({'tag': e.keys['tag'], 'time': t + L,
+                            'mono': mono[0], 'ev': e.keys,
+                            'res': me.resolve(e.keys),
+                            'desc': info[mono[1]]})
+        else:
+            ex.notes.append(expect_note(e.keys, t, L, info, groups, e.kind,
+                                        mono))
+    ex.voices = []
+    if any(e.mono for _, e in tl.items):
+        ex.voices = me.controlled_voices(tl, c)
+        for run, mid, t, exact, by in ex.voices:
+            ex.releases.append({'mono': (run, mid), 'time': t + L,
+                                'exact': exact, 'by': by,
+                                'optional': by.startswith('nothing-')})
+    if dies and c.deaths:
+        els = [e for _, e in tl.items]
+        later = {e.keys['tag'] for e in els[dies['idx']:] if 'tag' in e.keys}
+        restarts = sorted(a['at'] for a in case['controls']
+                          if a['do'] in ('reset-play', 'play-reset'))
+        ex.tolerate = []
+        for run, td in c.deaths.items():
+            hi = next((t for t in restarts if t > td), me.INF)
+            ex.tolerate.append((later, td + L, hi + L))
+        # the failing element is the one that creates its node: the library
+        # may have registered the release of a node it never created
+        f = els[dies['idx']]
+        # (one per run that died of it)
+        ex.orphan_releases_tolerated = len(c.deaths) \
+            if f.kind == 'mono_on' else 0
     ex.total, ex.total_upper = c.last, None
     return ex
 
@@ -962,6 +1134,12 @@ def compare(ex, cap, acc, mon, offgrid=False):
     ttol = (lambda a, b: close(a, b, 1e-9, 2.0 ** -31))
     if cap.decode_error:
         return [('score-not-decodable', {'why': cap.decode_error})]
+    if cap.extra.get('runaway'):
+        # a player that is still scheduled long after the model's end of the
+        # case (the scheduler was cut short there): nothing else is compared
+        return [('player-still-running-long-after-its-end',
+                 {'next_wake_up_at': cap.extra['runaway'],
+                  'expected_total': ex.total})]
     if len(cap.raw) != len(cap.lst):
         return [('raw-and-list-differ', {'raw': len(cap.raw),
                                          'list': len(cap.lst)})]
@@ -995,6 +1173,45 @@ def compare(ex, cap, acc, mon, offgrid=False):
                 if g['addr'] == '/n_set' and g['args'][:1] == \
                         [r['args'][1]] and g['args'][1:] == ['gate', 0]:
                     g['used'] = True
+    # a failing element of a player that is controlled afterwards (mono
+    # control): traffic with its tag / the tags after it, inside the window
+    # from the failure to the restart of the player, is not decided
+    # (not what an element that did play is expected to send then: a line
+    # that is repeated carries the same tags again)
+    due = [(n['tag'], n['time']) for n in ex.notes] + \
+        [(s_['tag'], s_['time']) for s_ in ex.sets]
+    for tags_, lo, hi in getattr(ex, 'tolerate', ()):
+        for r in rows:
+            if r['used'] or not (lo - 1e-9 <= r['t'] < hi - 1e-9):
+                continue
+            pr = _pairs(r['args'][4:]) if r['addr'] == '/s_new' else \
+                _pairs(r['args'][1:]) if r['addr'] == '/n_set' else None
+            tg = [v for n_, v in (pr or []) if n_ == 'tag']
+            if not tg or tg[0] not in tags_:
+                continue
+            if any(tg[0] == t_ and ttol(r['t'], when) for t_, when in due):
+                continue
+            r['used'] = True
+            acc.count(f'{mon}_failing_element_sent_traffic')
+            if r['addr'] == '/s_new':
+                if r in by_tag.get(tg[0], []):
+                    by_tag[tg[0]].remove(r)
+                for g in rows:
+                    if g['addr'] in ('/n_set', '/n_free') and (
+                            g['args'] == [r['args'][1], 'gate', 0]
+                            or g['args'] == [r['args'][1]]):
+                        g['used'] = True
+    left = getattr(ex, 'orphan_releases_tolerated', 0)
+    if left:
+        created = {r['args'][1] for r in rows if r['addr'] == '/s_new'
+                   and len(r['args']) > 1}
+        for g in rows:
+            if left and not g['used'] and g['addr'] in ('/n_set', '/n_free') \
+                    and (g['args'][1:] == ['gate', 0] or len(g['args']) == 1) \
+                    and g['args'][0] not in created:
+                g['used'] = True
+                left -= 1
+                acc.count(f'{mon}_release_of_a_node_never_created_tolerated')
     # plays of broken events (fault histories): at most one /s_new per such
     # play, and the gate-off of its node, are the failing play's own business
     for ft in ex.fault_tags:
@@ -1188,11 +1405,15 @@ def compare(ex, cap, acc, mon, offgrid=False):
             cand = [r for r in rows if r['addr'] == '/n_free' and not r['used']
                     and r['args'] == [on['id']]]
         acc.count(f'{mon}_mono_release_checked')
+        if not cand and rel.get('optional'):
+            continue
         if not cand:
             bad.append(('mono-release-missing', {'tag': on['tag']}))
             continue
         if len(cand) > 1:
-            bad.append(('mono-release-duplicated', {'tag': on['tag']}))
+            bad.append(('mono-release-duplicated',
+                        {'tag': on['tag'], 'node': on['id'],
+                         'released_at': [r['t'] for r in cand]}))
         for r in cand:
             r['used'] = True
         r = cand[0]
@@ -1312,6 +1533,12 @@ def _compare_controls(n, args, largs, acc, mon, what):
             acc.count(f'{mon}_control_from_defaults')
         if isinstance(v32, str) or isinstance(v64, str):
             bad.append((f'control-value-type/{what}', {'name': name}))
+            continue
+        try:
+            float(v64), float(v32)
+        except Exception:       # noqa: None, a list ... in a control slot
+            bad.append((f'control-value-type/{what}',
+                        {'name': name, 'value': repr(v64)}))
             continue
         ok64 = close(float(v64), float(exp))
         ok32 = (v32 == exp or _close32(float(v32), float(exp)))
